@@ -311,6 +311,10 @@ func c19Check(env *h.Env, c *c19Case) error {
 			gotReq[announced[r.ID].Path]++
 		}
 	}
+	var reqAll []string
+	for p := range gotReq {
+		reqAll = append(reqAll, p)
+	}
 	if !c.Merge {
 		// with differencing some selected files may already be identical in the old destination
 		o := &resyncObs{before: before, announced: announced, annIdx: map[string]*types.Stat{}, destStat: map[string]*types.Stat{}, may: map[string]bool{}, changed: map[string]bool{}, unchanged: map[string]bool{}}
@@ -381,8 +385,7 @@ func c19Check(env *h.Env, c *c19Case) error {
 		}
 	}
 	if !c.Merge {
-		keepOld := func(p string) bool { return false }
-		if errs := convergenceErrsLoose(after, before, want, keepOld); errs.Len() > 0 {
+		if errs := convergenceErrsLoose(after, before, want, reqAll); errs.Len() > 0 {
 			return fmt.Errorf("destination (without the listing) differs from selected entries + ancestors (selected %v): %v", c.Selected, errs.Err())
 		}
 	} else {
@@ -415,7 +418,7 @@ func c19Check(env *h.Env, c *c19Case) error {
 
 // convergenceErrsLoose is C01's oracle where files with unchanged identity keep
 // their old bytes (differencing is active in metadata-only mode too).
-func convergenceErrsLoose(after, before h.Snap, want *h.Tree, _ func(string) bool) *h.Errs {
+func convergenceErrsLoose(after, before h.Snap, want *h.Tree, requested []string) *h.Errs {
 	o := &resyncObs{before: before, annIdx: map[string]*types.Stat{}, destStat: map[string]*types.Stat{}, may: map[string]bool{}, changed: map[string]bool{}, unchanged: map[string]bool{}}
 	mem := &h.MemFS{T: want, LinkSizeFull: true}
 	o.announced = mem.Stats()
@@ -423,7 +426,8 @@ func convergenceErrsLoose(after, before h.Snap, want *h.Tree, _ func(string) boo
 		o.annIdx[st.Path] = st
 	}
 	o.classify(0)
-	return convergenceErrs(after, before, want, 0, func(p string) bool { return o.unchanged[p] && !o.may[p] })
+	o.reqPaths = requested
+	return convergenceErrs(after, before, want, 0, o.keepOld(0))
 }
 
 func TestC19(t *testing.T) {
